@@ -3,7 +3,7 @@ import re
 from vcore import Case, Harness, SDK_INCLUDES, sdk_sources
 
 ID = 'C17'
-GEN = []
+GEN = ['MetricsTemporal']
 LEAN_TARGETS = ['OtelVerif.Props.C17']
 THEOREMS = ['Otel.C17.' + t for t in (
     # ObservableRegistry: every history of AddCallback / RemoveCallback / instrument destruction
@@ -17,6 +17,7 @@ THEOREMS = ['Otel.C17.' + t for t in (
     # gauges: last-value aggregation through the temporal storage, every history
     'before_lt_since', 'linv_run', 'gauge_reports_latest', 'gauge_points_nodup', 'gauge_reports_latest_sync',
     'gauge_reports_latest_observable_cycle', 'gauge_reports_this_cycle',
+    'gen_async_facts',
 )]
 _SRCS = sdk_sources('common', 'resource', 'version', 'metrics')
 HARNESSES = [Harness('s_c17', ['harness/s_c17.cc'], sdk_srcs=_SRCS, includes=SDK_INCLUDES),
